@@ -141,6 +141,9 @@ PROPS["C09"] = {
     "level_note": "Trusted: strconv.FormatFloat/ParseFloat('f',-1,64) round-trips float64 exactly (stdlib contract, stubbed as an opaque inverse pair). Outside: RTP-Info, Authenticate/Authorization digest fields, KeyMgmt text wrapper, SMPTE/UTC ranges, session timeout > 99999 (decimal conversion of wide numbers is beyond the solvers), two fully symbolic ports at once.",
     "runs": [
         R("mikey-total", "pkg/mikey", "pkg/mikey", ["ZzC09MikeyTotal"], flags={"concoff": True}, quick_params={"P": 24}, thorough_params={"P": 32}),
+        R("mikey-rt", "pkg/mikey", "pkg/mikey", ["ZzC09MikeyRT"], flags={"concoff": True}, params={"NP": 2, "RICHAT": 0}),
+        R("mikey-rt-richlast", "pkg/mikey", "pkg/mikey", ["ZzC09MikeyRT"], flags={"concoff": True}, params={"NP": 2, "RICHAT": 1}, tiers=("thorough",)),
+        R("mikey-rt-3", "pkg/mikey", "pkg/mikey", ["ZzC09MikeyRT"], flags={"concoff": True}, params={"NP": 3, "RICHAT": 1}, tiers=("thorough",)),
         R("session", "pkg/headers", "pkg/headers", ["ZzC09SessionRT", "ZzC09SessionTotal"], flags={"concoff": True, "qtimeout": 120000}, quick_params={"P": 8}, thorough_params={"P": 10}),
         R("transport-rt-combos", "pkg/headers", "pkg/headers", ["ZzC09TransportRT"], flags={"concoff": True, "qtimeout": 60000}, params={"FIELD": -1}),
     ] + [
@@ -233,14 +236,22 @@ PROPS["C04"] = {
 
 # ---------------------------------------------------------------- C10
 PROPS["C10"] = {
+    "parallel": 4,
     "level_text": "Basic and Digest (MD5, SHA-256) on the real Sender -> Authorization.Marshal -> Unmarshal -> Verify chain with the server's own WWW-Authenticate challenge: symbolic user, password (printable, including ':'), realm and nonce (1-2 bytes each); completeness (right credentials accepted) and soundness (a different password / user / realm / nonce / method, or a scheme that is not enabled, is rejected). Digest hashes are uninterpreted functions assumed collision-free (pairwise axioms over the applications on the path).",
     "level_note": "Trusted: MD5/SHA-256 collision freedom (the cryptographic assumption). Outside: the URL matching relaxations (URLs are concrete here), the 401-vs-close behaviour of ServerConn, the client's single retry, field lengths above the registered bounds.",
     "runs": [
         R("basic", "pkg/auth", "pkg/auth", ["ZzC10Basic"], flags={"concoff": True}, quick_params={"UL": 2, "PL": 3}, thorough_params={"UL": 3, "PL": 4}),
-        R("digest-md5", "pkg/auth", "pkg/auth", ["ZzC10Digest"], flags={"concoff": True, "qtimeout": 120000, "unwind": 200},
-          quick_params={"UL": 2, "PL": 2, "RL": 1, "NL": 1}, thorough_params={"UL": 2, "PL": 2, "RL": 2, "NL": 2}),
-        R("digest-sha256", "pkg/auth", "pkg/auth", ["ZzC10Digest"], flags={"concoff": True, "qtimeout": 120000, "unwind": 200},
-          quick_params={"SHA256": 1, "UL": 1, "PL": 1, "RL": 1, "NL": 1}, thorough_params={"SHA256": 1, "UL": 2, "PL": 1, "RL": 1, "NL": 1}),
+    ] + [
+        # one run per request-URL shape (0: with a path, 1: authority only, 2: query without path, 3: query and trailing slash)
+        R("digest-md5-url%d" % u, "pkg/auth", "pkg/auth", ["ZzC10Digest"], flags={"concoff": True, "qtimeout": 30000, "unwind": 200, "workers": 4},
+          params={"URLLO": u, "NURL": u + 1}, quick_params={"UL": 2, "PL": 2, "RL": 1, "NL": 1}, thorough_params={"UL": 2, "PL": 2, "RL": 2, "NL": 2})
+        for u in range(4)
+    ] + [
+        R("digest-sha256-url%d" % u, "pkg/auth", "pkg/auth", ["ZzC10Digest"], flags={"concoff": True, "qtimeout": 30000, "unwind": 200, "workers": 4},
+          params={"URLLO": u, "NURL": u + 1}, quick_params={"SHA256": 1, "UL": 1, "PL": 1, "RL": 1, "NL": 1}, thorough_params={"SHA256": 1, "UL": 2, "PL": 1, "RL": 1, "NL": 1},
+          tiers=("quick", "thorough") if u in (0, 1) else ("thorough",))
+        for u in range(4)
+    ] + [
         R("admission", "pkg/auth", "pkg/auth", ["ZzC10Admission"], flags={"concoff": True, "qtimeout": 120000, "unwind": 200}),
     ],
 }
